@@ -53,7 +53,12 @@ func (t *vfTransport) Protocol() ProtocolType         { return t.proto }
 func (t *vfTransport) ProtocolVersion() ProtocolVersion { return ProtocolVersion2 }
 func (t *vfTransport) Unidirectional() bool           { return t.uni }
 func (t *vfTransport) Emulation() bool                { return t.emulation }
-func (t *vfTransport) DisabledPushFlags() uint64      { return t.disabledPush }
+// DisabledPushFlags is the one transport call the publication delivery path makes between releasing and re-taking
+// Client.mu; checks may park a delivery there with Gates.Arm("dpf:<conn name>", 1) (no-op unless armed).
+func (t *vfTransport) DisabledPushFlags() uint64 {
+	t.w.Gates.Pass("dpf:" + t.name)
+	return t.disabledPush
+}
 func (t *vfTransport) PingPongConfig() PingPongConfig { return t.pingPong }
 
 func vfDecodeFrame(proto ProtocolType, uni bool, raw []byte) (*protocol.Reply, error) {
